@@ -85,3 +85,24 @@ func VerifOptionTrees(elem protoreflect.Descriptor) ([]VerifOptionTree, error) {
 	}
 	return out, nil
 }
+
+// VerifElementsLess is sourceElements.Less(i, j) on the elements add() builds
+// for the given descriptors (the body of a file, a message or an enum).
+func VerifElementsLess(ds []protoreflect.Descriptor, i, j int) bool {
+	se := newElements()
+	for _, d := range ds {
+		se.add(d)
+	}
+	return se.Less(i, j)
+}
+
+// VerifOptionsLess is optionsByLocation.Less(i, j) on the options of one
+// element, in the order VerifOptionTrees lists them.
+func VerifOptionsLess(elem protoreflect.Descriptor, i, j int) (bool, error) {
+	var extensions *optionreflect.Builder
+	opts, err := extensions.OptionsFor(elem)
+	if err != nil {
+		return false, err
+	}
+	return optionreflect.VerifOptionsLess(opts, i, j), nil
+}
